@@ -3,7 +3,7 @@
    PM c, Fin c) that the controller accepts, for any workflow W and any task-outcome oracle. *)
 From Coq Require Import List Bool Arith.
 Import ListNotations.
-Require Import V.Restart.Model V.Sched.Model V.Sched.Proofs.
+Require Import V.Restart.Model V.Sched.Model V.Sched.Proofs V.Sched.Sleep V.Sched.SleepProofs.
 
 (* Whenever a component's task is launched for the first time, every component it consumes from has
    been observed finished and is in a final state — except a same-stage producer of a repeating
@@ -72,5 +72,71 @@ Example C01_nonvacuous :
   match run exW true (fun _ _ => Success) state0 [Start; Tick; Exit 0; PM 0; Tick; Fin 0; Tick; Tick; Exit 1] with
   | Some s => done s = [0] /\ runs (dy s 1) = 1 /\ runs (dy s 2) = 1 /\ cstate (dy s 0) = CFin Finished
   | None => False
+  end.
+Proof. vm_compute. repeat split. Qed.
+
+(* ---- the same statements for the controller that can be put to sleep and woken up at any point
+   (Controller.sleep / wake_up; coq/Sched/Sleep.v): orderings are now lists over Start, Tick, Exit c, PM c, Fin c,
+   Sleep, Wake.  Nothing is launched while the controller sleeps, nor by wake_up itself; a first launch is guarded
+   exactly as above. *)
+Theorem C01_sleep_launch_guard : forall W outcome evs ss ev ss' c,
+  srun W outcome sstate0 evs = Some ss -> sstep W outcome ss ev = Some ss' ->
+  runs (dy (base ss) c) = 0 -> 0 < runs (dy (base ss') c) ->
+  asleep ss = false /\
+  (forall p, In p (preds (cmp W c)) ->
+     ((In p (done (base ss)) /\ is_fin (pstate (base ss) p) = true) \/
+      (is_subject W c p = true /\ 0 < runs (dy (base ss) p) /\ finish_called (dy (base ss) p) = false)) /\
+     is_failed (pstate (base ss) p) = false /\
+     (is_aggregate (cmp W c) = false -> is_shutdown (pstate (base ss) p) = false)).
+Proof.
+  intros W outcome evs ss ev ss' c Hr Hs H0 H1.
+  destruct (srun_ok W outcome evs sstate0 ss SInv0 Hr) as [S _].
+  destruct (sstep_ok W outcome ss ev ss' S Hs) as [_ [_ [G F]]]. destruct (G c H0 H1) as [G1 G2].
+  split.
+  - destruct (asleep ss) eqn:A; [|reflexivity]. exfalso. rewrite (F eq_refl c H0) in H1. inversion H1.
+  - intros p Hp. split; [exact (G1 p Hp)|split].
+    + destruct (is_failed (pstate (base ss) p)) eqn:E; [|reflexivity].
+      rewrite (shutdown_rule_failed W (base ss) c p Hp E) in G2. discriminate.
+    + intros Ha. destruct (is_shutdown (pstate (base ss) p)) eqn:E; [|reflexivity].
+      rewrite (shutdown_rule_shutdown W (base ss) c p Hp Ha E) in G2. discriminate.
+Qed.
+Print Assumptions C01_sleep_launch_guard.
+
+(* done => final, final states are stable, blocked consumers stay blocked: also with sleep / wake_up.  (While the
+   controller sleeps finishedCheck still records the component as done — its `finally` clause — and postpones only
+   the handling of a failure.) *)
+Theorem C01_sleep_stability : forall W outcome evs evs' ss ss',
+  srun W outcome sstate0 evs = Some ss -> srun W outcome ss evs' = Some ss' ->
+  (forall c, In c (done (base ss)) -> is_fin (pstate (base ss) c) = true) /\
+  (forall c f, ctl (dy (base ss) c) = Some f -> ctl (dy (base ss') c) = Some f) /\
+  (forall c p, In p (preds (cmp W c)) ->
+     (ctl (dy (base ss) p) = Some Failed \/ (is_aggregate (cmp W c) = false /\ ctl (dy (base ss) p) = Some Shutdown)) ->
+     runs (dy (base ss) c) = 0 -> runs (dy (base ss') c) = 0).
+Proof.
+  intros W outcome evs evs' ss ss' Hr Hr'.
+  destruct (srun_ok W outcome evs sstate0 ss SInv0 Hr) as [S _]. pose proof S as [[_ [I2 _]] _].
+  destruct (srun_ok W outcome evs' ss ss' S Hr') as [_ X].
+  split; [exact I2|split; [intros c f Hc; exact (x_ctl _ _ X c f Hc)|]].
+  intros c p Hp Hb H0. exact (sblocked_forever W outcome evs' ss ss' c p S Hr' Hp Hb H0).
+Qed.
+Print Assumptions C01_sleep_stability.
+
+(* a run in which the controller never sleeps is a run of the model above (so the theorems above are instances) *)
+Theorem C01_sleep_conservative : forall W outcome evs,
+  srun W outcome sstate0 (map Ev evs) =
+  match run W true outcome state0 evs with Some s => Some {| base := s; asleep := false; sleepq := [] |} | None => None end.
+Proof. intros W outcome evs. rewrite (srun_awake W outcome evs sstate0 eq_refl). reflexivity. Qed.
+Print Assumptions C01_sleep_conservative.
+
+(* non-vacuity: first (done) -> sim -> monitor (repeating): the controller sleeps while sim becomes ready; sim is
+   launched only after wake_up, and monitor after sim *)
+Example C01_sleep_nonvacuous :
+  match srun exW (fun _ _ => Success) sstate0
+          [Ev Start; Ev Tick; Ev (Exit 0); Ev (PM 0); Ev (Fin 0); Sleep; Ev Tick; Ev Tick],
+        srun exW (fun _ _ => Success) sstate0
+          [Ev Start; Ev Tick; Ev (Exit 0); Ev (PM 0); Ev (Fin 0); Sleep; Ev Tick; Wake; Ev Tick; Ev Tick] with
+  | Some a, Some b => runs (dy (base a) 1) = 0 /\ runs (dy (base a) 2) = 0 /\ asleep a = true /\
+                      runs (dy (base b) 1) = 1 /\ runs (dy (base b) 2) = 1 /\ done (base b) = [0]
+  | _, _ => False
   end.
 Proof. vm_compute. repeat split. Qed.
